@@ -1736,6 +1736,86 @@ def _type_prog(fn: ast.FunctionDef, value_of: dict[str, str], what: str, flag_kw
     return prog, {'raw': raw, 'type_local': tvar, 'flag_local': fvar, 'program': prog}
 
 
+def _io_decay(tree: ast.Module, value_of: dict[str, str]) -> dict:
+    """VALUE_TO_IO_DECAY as the module builds it (`{typ: typ if typ.valid_for_io else ValueTypes.STRING for typ in ValueTypes}` with the
+    set literal of ValueTypes.valid_for_io, then the explicit assignments) as canonical text -> canonical text, and the type branch of
+    IODef.export: members written as a literal (`(bool)`), every other member as VALUE_TO_IO_DECAY[member].value."""
+    members, alias = enum_members(_cls(tree, 'ValueTypes'))
+    comp = _module_assign(tree, 'VALUE_TO_IO_DECAY')
+    ok = (isinstance(comp, ast.DictComp) and len(comp.generators) == 1 and not comp.generators[0].ifs and isinstance(comp.generators[0].target, ast.Name)
+          and _is(comp.generators[0].iter, 'ValueTypes'))
+    dflt = None
+    if ok:
+        v = comp.generators[0].target.id   # type: ignore[union-attr]
+        val = comp.value                   # type: ignore[union-attr]
+        ok = _is(comp.key, v) and isinstance(val, ast.IfExp) and _is(val.test, f'{v}.valid_for_io') and _is(val.body, v) and isinstance(
+            val.orelse, ast.Attribute) and _is(val.orelse.value, 'ValueTypes') and val.orelse.attr in value_of   # type: ignore[union-attr]
+        if ok:
+            dflt = value_of[val.orelse.attr]   # type: ignore[union-attr]
+    if not ok or dflt is None:
+        raise TranslateError('VALUE_TO_IO_DECAY is not `{typ: typ if typ.valid_for_io else ValueTypes.X for typ in ValueTypes}`')
+    prop = [n for n in _cls(tree, 'ValueTypes').body if isinstance(n, ast.FunctionDef) and n.name == 'valid_for_io']
+    pb = _body(prop[0]) if len(prop) == 1 else []
+    if not (len(pb) == 1 and isinstance(pb[0], ast.Return) and isinstance(pb[0].value, ast.Compare) and _is(pb[0].value.left, 'self.value')
+            and len(pb[0].value.ops) == 1 and isinstance(pb[0].value.ops[0], ast.In) and isinstance(pb[0].value.comparators[0], (ast.Set, ast.Tuple, ast.List))):
+        raise TranslateError('ValueTypes.valid_for_io is not `return self.value in {...}`')
+    valid = {_const(e, str, 'valid_for_io member') for e in pb[0].value.comparators[0].elts}
+    decay = {v: (v if v in valid else dflt) for _, v in members}
+    seen_def = False
+    for st in tree.body:
+        if not any(isinstance(n, ast.Name) and n.id == 'VALUE_TO_IO_DECAY' for n in ast.walk(st)):
+            continue
+        if isinstance(st, (ast.Assign, ast.AnnAssign)) and st.value is comp:
+            seen_def = True
+            continue
+        if isinstance(st, (ast.FunctionDef, ast.ClassDef)):
+            for n in ast.walk(st):
+                if isinstance(n, ast.Subscript) and _is(n.value, 'VALUE_TO_IO_DECAY') and not isinstance(n.ctx, ast.Load):
+                    raise TranslateError(f'VALUE_TO_IO_DECAY modified at line {n.lineno}')
+                if isinstance(n, ast.Attribute) and _is(n.value, 'VALUE_TO_IO_DECAY') and n.attr not in ('get', 'keys', 'values', 'items'):
+                    raise TranslateError(f'VALUE_TO_IO_DECAY.{n.attr} at line {n.lineno} not supported')
+            continue
+        if (seen_def and isinstance(st, ast.Assign) and len(st.targets) == 1 and isinstance(st.targets[0], ast.Subscript) and _is(st.targets[0].value, 'VALUE_TO_IO_DECAY')
+                and isinstance(st.targets[0].slice, ast.Attribute) and _is(st.targets[0].slice.value, 'ValueTypes') and st.targets[0].slice.attr in value_of
+                and isinstance(st.value, ast.Attribute) and _is(st.value.value, 'ValueTypes') and st.value.attr in value_of):
+            decay[value_of[st.targets[0].slice.attr]] = value_of[st.value.attr]
+            continue
+        raise TranslateError(f'module statement about VALUE_TO_IO_DECAY not recognised at line {st.lineno}: {ast.unparse(st)[:80]}')
+    # IODef.export: if self._type is ValueTypes.X: write('(lit)') ... elif isinstance(self._type, ValueTypes): write(f'({VALUE_TO_IO_DECAY[self._type].value})') else: custom
+    exp = _method(tree, 'IODef', 'export')
+    chain = [st for st in _body(exp) if isinstance(st, ast.If) and any(isinstance(n, ast.Name) and n.id == 'VALUE_TO_IO_DECAY' for n in ast.walk(st))]
+    if len(chain) != 1:
+        raise TranslateError('IODef.export: the type branch was not found')
+    node: ast.stmt = chain[0]
+    special: list[tuple[str, str]] = []
+    general = False
+    while isinstance(node, ast.If):
+        t = node.test
+        if (isinstance(t, ast.Compare) and _is(t.left, 'self._type') and len(t.ops) == 1 and isinstance(t.ops[0], ast.Is)
+                and isinstance(t.comparators[0], ast.Attribute) and _is(t.comparators[0].value, 'ValueTypes') and t.comparators[0].attr in value_of and not general):
+            if not (len(node.body) == 1 and isinstance(node.body[0], ast.Expr) and isinstance(node.body[0].value, ast.Call) and _is(node.body[0].value.func, 'file.write')
+                    and len(node.body[0].value.args) == 1):
+                raise TranslateError('IODef.export: a special type branch is not one write')
+            lit = _const(node.body[0].value.args[0], str, 'IODef.export literal type text')
+            if not (lit.startswith('(') and lit.endswith(')')):
+                raise TranslateError(f'IODef.export: literal type text {lit!r} is not parenthesised')
+            special.append((value_of[t.comparators[0].attr], lit[1:-1]))
+        elif _is(t, 'isinstance(self._type, ValueTypes)') and not general:
+            if not (len(node.body) == 1 and _is(node.body[0], "file.write(f'({VALUE_TO_IO_DECAY[self._type].value})')")):
+                raise TranslateError('IODef.export: the member branch does not write `({VALUE_TO_IO_DECAY[self._type].value})`')
+            general = True
+        else:
+            raise TranslateError(f'IODef.export: type test not recognised: {ast.unparse(t)[:60]}')
+        if len(node.orelse) == 1 and isinstance(node.orelse[0], ast.If):
+            node = node.orelse[0]
+        else:
+            break
+    if not general:
+        raise TranslateError('IODef.export: no branch for ValueTypes members')
+    return {'decay': [(v, decay[v]) for _, v in members], 'special': special, 'valid_for_io': sorted(valid), 'default': dflt}
+
+
+
 def _type_text(tree: ast.Module) -> dict:
     table, value_of = _value_type_lookup(tree)
     kv_prog, kv_side = _type_prog(_method(tree, 'KVDef', '_parse'), value_of, 'KVDef._parse', ('reportable', 7))
@@ -1750,7 +1830,7 @@ def _type_text(tree: ast.Module) -> dict:
                 and vals[1].conversion == -1 and vals[1].format_spec is None and isinstance(vals[2], ast.Constant)
                 and isinstance(vals[2].value, str) and vals[2].value.strip() == ')'):
             raise TranslateError(f'{cls}.export: the custom type is not written as `({{self._type}})`')
-    return {'table': table, 'kv_prog': kv_prog, 'io_prog': io_prog, 'kv': kv_side, 'io': io_side}
+    return {'table': table, 'kv_prog': kv_prog, 'io_prog': io_prog, 'kv': kv_side, 'io': io_side, 'io_decay': _io_decay(tree, value_of)}
 
 
 
@@ -2015,6 +2095,9 @@ def translate() -> tuple[str, dict]:
         '(* KVDef._parse / IODef._parse: how the text between the parentheses becomes the type (Fmt/FgdTypeText.v); VALUE_TYPE_LOOKUP *)',
         'Definition vt_lookup_tab : list (list N * list N) := [' + '; '.join(f'({_cstr(k)}, {_cstr(v)})' for k, v in tt['table']) + '].',
         f'Definition kv_type_prog : tprog := {tt["kv_prog"][1:-1]}.',
+        '(* VALUE_TO_IO_DECAY (canonical text -> canonical text of the decayed member) and the members IODef.export writes as a literal *)',
+        'Definition io_decay_tab : list (list N * list N) := [' + '; '.join(f'({_cstr(k)}, {_cstr(v)})' for k, v in tt['io_decay']['decay']) + '].',
+        'Definition io_special_text : list (list N * list N) := [' + '; '.join(f'({_cstr(k)}, {_cstr(v)})' for k, v in tt['io_decay']['special']) + '].',
         f'Definition io_type_prog : tprog := {tt["io_prog"][1:-1]}.',
         '(* _engine_db tables *)',
         f'Definition value_types_all : list string := {_slist(n for n, _ in db["vt_members"])}.',
